@@ -1051,8 +1051,17 @@ class AnsiString:
         if isinstance(value, str):
             value = AnsiString(value)
         elif isinstance(value, AnsiString):
-            # Work on a copy - merging at the seam rewrites the incoming marker lists
+            # Work on a copy - merging at the seam rewrites the incoming marker lists. The copy gets its own setting
+            # objects: a stop marker is tied to its setting by reference, so this string must not end up holding one
+            # object in two places (copies and slices share their setting objects with their source).
             value = value.copy()
+            unique = {}
+            for point in value._fmts.values():
+                for lst in (point.add, point.rem):
+                    for i, s in enumerate(lst):
+                        if id(s) not in unique:
+                            unique[id(s)] = AnsiSetting(s)
+                        lst[i] = unique[id(s)]
 
         if isinstance(value, AnsiString):
             incoming_str = value._s
